@@ -88,6 +88,8 @@ func Reset() {
 	table = map[string]*Term{}
 	extractMemo = map[[3]int]*Term{}
 	resetVars()
+	extractOrigin = map[int][3]int{}
+	originTerm = map[int]*Term{}
 	nextID = 1
 	True = mk(&Term{K: KTrue})
 	False = mk(&Term{K: KFalse})
@@ -562,7 +564,36 @@ func bitN(k Kind, args []*Term) *Term {
 	if r := segMerge(k, w, flat); r != nil {
 		return r
 	}
+	if k == KOr && len(flat) == 2 {
+		if r := muxForm(flat[0], flat[1]); r != nil {
+			return r
+		}
+	}
 	return mk(&Term{K: k, W: w, Args: flat})
+}
+
+// muxForm canonicalises the textbook bitwise multiplexer (x & y) | (^x & z) (MD4/MD5/SHA "F"/"Ch",
+// RIPEMD f2/f4) to the equivalent form ((y ^ z) & x) ^ z that optimised implementations use, so
+// that both spellings fold to the same term. Returns nil if a|b is not of that shape.
+func muxForm(a, b *Term) *Term {
+	if a.K != KAnd || b.K != KAnd || len(a.Args) != 2 || len(b.Args) != 2 {
+		return nil
+	}
+	for i := 0; i < 2; i++ {
+		for j := 0; j < 2; j++ {
+			p, q := a.Args[i], b.Args[j]
+			y, z := a.Args[1-i], b.Args[1-j]
+			switch {
+			case q.K == KNot && q.Args[0] == p:
+				// (p & y) | (^p & z)
+				return Xor(And(Xor(y, z), p), z)
+			case p.K == KNot && p.Args[0] == q:
+				// (^q & y) | (q & z)
+				return Xor(And(Xor(z, y), q), y)
+			}
+		}
+	}
+	return nil
 }
 
 func isAllOnes(c *Term) bool {
@@ -843,7 +874,58 @@ func Extract(a *Term, hi, lo int) *Term {
 	}
 	r := extract1(a, hi, lo)
 	extractMemo[k] = r
+	if isBitwise(a) {
+		if _, ok := extractOrigin[r.ID]; !ok {
+			extractOrigin[r.ID] = [3]int{a.ID, hi, lo}
+			originTerm[a.ID] = a
+		}
+	}
 	return r
+}
+
+// Rotations of bitwise terms. A rotation rotl(a, n) of a term built from and/or/xor/not is kept
+// ATOMIC, as Concat(KExtract(a, w-1-n, 0), KExtract(a, w-1, w-n)) with the two extractions NOT
+// pushed into a (the only place where a KExtract node has a bitwise argument). Without this,
+// pure bitwise networks with rotations (Keccak-f: 24 rounds of xor/and-not/rotate) are sliced
+// down to single bits by the Extract push-down. The shape is recognised in Concat from the
+// recorded origin of pushed-down extractions, so both bits.RotateLeft and x<<n | x>>(w-n) end here.
+var (
+	extractOrigin = map[int][3]int{} // result ID -> (argument ID, hi, lo) for bitwise arguments
+	originTerm    = map[int]*Term{}
+)
+
+func isBitwise(t *Term) bool {
+	switch t.K {
+	case KAnd, KOr, KXor, KNot:
+		return t.W > 1
+	}
+	return false
+}
+
+// isRot reports whether t is an atomic rotation (see above).
+func isRot(t *Term) bool {
+	if t.K != KConcat || len(t.Args) != 2 {
+		return false
+	}
+	h, l := t.Args[0], t.Args[1]
+	return h.K == KExtract && l.K == KExtract && h.Args[0] == l.Args[0] && isBitwise(h.Args[0]) &&
+		h.Lo == 0 && l.Lo == h.Hi+1 && l.Hi == h.Args[0].W-1
+}
+
+// rotOf returns the atomic rotation if Concat(hiPart, loPart) is a rotation of a bitwise term.
+func rotOf(hiPart, loPart *Term) *Term {
+	o0, ok0 := extractOrigin[hiPart.ID]
+	o1, ok1 := extractOrigin[loPart.ID]
+	if !ok0 || !ok1 || o0[0] != o1[0] {
+		return nil
+	}
+	a := originTerm[o0[0]]
+	if a == nil || o0[2] != 0 || o1[2] != o0[1]+1 || o1[1] != a.W-1 || hiPart.W+loPart.W != a.W {
+		return nil
+	}
+	h := mk(&Term{K: KExtract, W: hiPart.W, Args: []*Term{a}, Hi: o0[1], Lo: 0})
+	l := mk(&Term{K: KExtract, W: loPart.W, Args: []*Term{a}, Hi: o1[1], Lo: o1[2]})
+	return mk(&Term{K: KConcat, W: a.W, Args: []*Term{h, l}})
 }
 
 func extract1(a *Term, hi, lo int) *Term {
@@ -857,6 +939,9 @@ func extract1(a *Term, hi, lo int) *Term {
 	case KExtract:
 		return Extract(a.Args[0], a.Lo+hi, a.Lo+lo)
 	case KConcat:
+		if isRot(a) {
+			return mk(&Term{K: KExtract, W: nw, Args: []*Term{a}, Hi: hi, Lo: lo})
+		}
 		// select overlapping parts
 		var parts []*Term
 		pos := a.W // top bit position+1 of current arg
@@ -960,6 +1045,11 @@ func Concat(parts ...*Term) *Term {
 	}
 	if len(out) == 1 {
 		return out[0]
+	}
+	if len(out) == 2 {
+		if r := rotOf(out[0], out[1]); r != nil {
+			return r
+		}
 	}
 	w := 0
 	for _, p := range out {
